@@ -424,6 +424,20 @@ def register4(E):
     @R(r'Option::<.*>::(as_mut|as_deref)$')
     def _(e, c, a):
         o = deref(a[0]); return SOME(Ref(o.f, 0)) if o.v == 'Some' else NONE()
+    @R(r'Result::<.*>::(or_else|unwrap_or_else|unwrap_or_default|err|expect_err|unwrap_err|inspect_err|or)(::<.*)?$')
+    def _(e, c, a):
+        op = re.search(r'>::(\w+)(::<.*)?$', c).group(1); r = a[0]
+        if op == 'or_else': return r if r.v == 'Ok' else e.closure_call(a[1], [r.f[0]])
+        if op == 'or': return r if r.v == 'Ok' else a[1]
+        if op == 'unwrap_or_else': return r.f[0] if r.v == 'Ok' else e.closure_call(a[1], [r.f[0]])
+        if op == 'err': return SOME(r.f[0]) if r.v == 'Err' else NONE()
+        if op in ('expect_err', 'unwrap_err'):
+            if r.v == 'Ok': raise Panic('unwrap_err on Ok')
+            return r.f[0]
+        if op == 'inspect_err':
+            if r.v == 'Err': e.closure_call(a[1], [Ref(r.f, 0)])
+            return r
+        raise EngineError('Result::' + op)
     @R(r'Result::<.*>::(map_err|map|and_then|ok|is_ok|is_err|unwrap_or)(::<.*)?$')
     def _(e, c, a):
         op = re.search(r'>::(\w+)(::<.*)?$', c).group(1); r = a[0]
@@ -523,6 +537,13 @@ def register4(E):
         return SliceRef([r.get()], 0, 1)
     @R(r'^(std|core)::mem::(drop|forget)::<')
     def _(e, c, a): return UNIT
+    @R(r'as Itertools>::(tuples|tuple_windows)::<')
+    def _(e, c, a):
+        xs = drain(it_of(a[0]))
+        mm = re.search(r'::<\((.*)\)>$', c)
+        n = len(split_top(mm.group(1))) if mm else 2
+        if 'tuple_windows' in c: return It('list', l=[Agg([clone_val(x) for x in xs[i:i + n]], 'tup') for i in range(len(xs) - n + 1)], pos=0)
+        return It('list', l=[Agg(xs[i:i + n], 'tup') for i in range(0, len(xs) - n + 1, n)], pos=0)          # a trailing incomplete tuple is dropped (itertools semantics)
     @R(r'as Itertools>::positions::<')
     def _(e, c, a):
         xs = drain(it_of(a[0]))
